@@ -565,7 +565,7 @@ var c09NodeVals = []any{nil, []any{}, []any{map[string]any{"Value": json.Number(
 func runC09(c *vh.Ctx) {
 	g := vh.NewGen(c.Rng)
 	b := &vh.Batch{}
-	c.Res.Rule = "random policies over all node kinds (every operator, extension calls and extension-typed literal values, is / is..in, like patterns with wildcards and escapes, set and record literals and literal set / record values, every scope form, annotations, Unicode strings): MarshalJSON -> UnmarshalJSON -> AST equal to the original modulo the documented identifications (annotations and record entries by key; decimal / ip literal = constructor call; zero-component pattern = the empty literal), through cedar.Policy and through ast.Policy; PolicySet JSON round trip preserves ids and policies; text -> JSON -> text and JSON -> text -> JSON equal the single-format results; every encoding authorizes identically on 6+ environments; every JSON / text policy document and every policy-set document (own encodings and near-miss documents) is also decoded into a REUSED receiver that already holds other content (ast.Policy, cedar.Policy, a PolicySet holding an earlier set plus a policy under its own id; via the method and via json.Unmarshal) and must give the same accept / reject, ids, policies, MarshalJSON bytes and Authorize result as a fresh decode; Lean model toJ / fromJ (JSON-tree level) agrees with the Go codec on the generated documents (canonical tree of the encoding; decoded policy) and on near-miss documents (accept / reject / decoded policy; a Go panic is the C10 finding). distinct = distinct policies / documents; non-trivial = policy with at least one condition"
+	c.Res.Rule = "random policies over all node kinds (every operator, extension calls and extension-typed literal values, is / is..in, like patterns with wildcards and escapes, set and record literals and literal set / record values, every scope form, annotations, Unicode strings): MarshalJSON -> UnmarshalJSON -> AST equal to the original modulo the documented identifications (annotations and record entries by key; decimal / ip literal = constructor call; zero-component pattern = the empty literal), through cedar.Policy and through ast.Policy; PolicySet JSON round trip preserves ids and policies; text -> JSON -> text and JSON -> text -> JSON equal the single-format results; every encoding authorizes identically on 6+ environments; like-patterns given as COMPONENT LISTS (literals incl. empty ones in leading / middle / trailing position, literal `*`, escapes; wildcards incl. several in a row) with a meaning fixed independently of cedar-go (literals in order, a wildcard = any text; dynamic programming over bytes): types.NewPattern(list).Match, the pattern decoded from the policy JSON \"pattern\" array, the policy parsed from the Cedar text of the same pattern, and cedar.Authorize of both policies on contexts holding strings around the accept / reject boundary all agree with it, and the two codecs give the same policy; every JSON / text policy document and every policy-set document (own encodings and near-miss documents) is also decoded into a REUSED receiver that already holds other content (ast.Policy, cedar.Policy, a PolicySet holding an earlier set plus a policy under its own id; via the method and via json.Unmarshal) and must give the same accept / reject, ids, policies, MarshalJSON bytes and Authorize result as a fresh decode; Lean model toJ / fromJ (JSON-tree level) agrees with the Go codec on the generated documents (canonical tree of the encoding; decoded policy) and on near-miss documents (accept / reject / decoded policy; a Go panic is the C10 finding). distinct = distinct policies / documents; non-trivial = policy with at least one condition"
 
 	pool := g.EnvPool(c.N(40, 400))
 	c09ReuseStart(c, pool)
@@ -615,6 +615,9 @@ func runC09(c *vh.Ctx) {
 		}
 		addDecode(w.doc, "witness")
 	}
+
+	// ---- like-patterns given as component lists (c09_patterns.go) ----
+	c09PatternComponents(c, addDecode)
 
 	nPol := c.N(2500, 100000)
 	for i := 0; i < nPol; i++ {
